@@ -1,6 +1,7 @@
 /- X-lu: the LU routines of the model at `Float` on recorded inputs. -/
 import IvpModel.Driver.Util
 import IvpModel.Model.LU
+import IvpModel.Model.LUF
 
 namespace Drv.Lu
 open Drv LU
@@ -16,10 +17,18 @@ def parseIp (s : String) : Array Nat := if s == "-" || s == "" then #[] else ((s
 def step (line : String) : String :=
   match words line with
   | ["dec", r, c, l, a] =>
-    match decomp (α := Float) r.toNat! c.toNat! l.toNat! (parseFs a) with
-    | .ok (f, ip) => s!"ok {fmtFs f} {fmtIp ip}"
-    | .error e => s!"err {errStr e}"
-  | ["sol", n, a, ip, b] => s!"x {fmtFs (solve (α := Float) n.toNat! (parseFs a) (parseIp ip) (parseFs b))}"
+    -- both real models answer (the loop transcription `LU` and the closed-form `LUF` the general theorems are about);
+    -- a difference between them is reported on the line and so shows up as a disagreement with the implementation
+    let show1 := fun (r : Except Err (Array Float × Array Nat)) => match r with
+      | .ok (f, ip) => s!"ok {fmtFs f} {fmtIp ip}"
+      | .error e => s!"err {errStr e}"
+    let s1 := show1 (LUF.decomp (α := Float) r.toNat! c.toNat! l.toNat! (parseFs a))
+    let s2 := show1 (decomp (α := Float) r.toNat! c.toNat! l.toNat! (parseFs a))
+    if s1 == s2 then s1 else s!"model-split luf=[{s1}] lu=[{s2}]"
+  | ["sol", n, a, ip, b] =>
+    let s1 := s!"x {fmtFs (LUF.solve (α := Float) n.toNat! (parseFs a) (parseIp ip) (parseFs b))}"
+    let s2 := s!"x {fmtFs (solve (α := Float) n.toNat! (parseFs a) (parseIp ip) (parseFs b))}"
+    if s1 == s2 then s1 else s!"model-split luf=[{s1}] lu=[{s2}]"
   | ["decc", n, l, ar, ai] =>
     match decompC (α := Float) n.toNat! l.toNat! (parseFs ar) (parseFs ai) with
     | .ok (fr, fi, ip) => s!"ok {fmtFs fr} {fmtFs fi} {fmtIp ip}"
